@@ -5,7 +5,7 @@ import random
 
 import z3
 
-from harness.common import Ctx, byte_obligation, io_cases, mi, read_scenario
+from harness.common import Ctx, byte_obligation, fault_finish, fault_mode, io_cases, mi, read_scenario
 from oracles.mem import SymMem
 from oracles import vhd as spec
 from symx import core, files, layouts, loader, stubs
@@ -41,6 +41,9 @@ def read_task(prop, cfg, tier, seed):
     m = load()
     ctx = Ctx(prop, f"vhd.{kind}", cfg, tier, seed, engine_kw=dict(max_decisions=cfg.get("max_decisions", 400)))
     rng = random.Random(seed)
+    fault = bool(cfg.get("fault"))
+    if fault:
+        fault_mode(ctx)
     maxlen = N * bs if kind == "dynamic" else cfg.get("max_len", 1 << 24)
 
     def body(E, ctx):
@@ -67,21 +70,24 @@ def read_task(prop, cfg, tier, seed):
             E.assume(offset + length <= cur)
         if kind == "fixed":
             E.assume(data_offset == U64)
-            E.assume(cur + 511 <= fsize)  # data followed by the footer
+            if not fault:
+                E.assume(cur + 511 <= fsize)  # data followed by the footer
         else:
             E.assume(data_offset <= 1 << 62)
             table_offset = files.word_at("img", data_offset + 16, 8, "be")
             max_entries = files.word_at("img", data_offset + 28, 4, "be")
             E.assume(table_offset <= 1 << 62)
-            E.assume(max_entries * bs >= cur)
-            # every structure the specification refers to lies inside the file
-            E.assume(data_offset + 1024 <= fsize)
-            E.assume(table_offset + 4 * max_entries <= fsize)
+            if not fault:
+                E.assume(max_entries * bs >= cur)
+                # every structure the specification refers to lies inside the file
+                E.assume(data_offset + 1024 <= fsize)
+                E.assume(table_offset + 4 * max_entries <= fsize)
             b0 = (offset // 512) // spb
             for k in range(N + 1):
                 e = files.word_at("img", table_offset + 4 * (b0 + k), 4, "be")
-                E.assume(e != 0)
-                E.assume(core.sym_or(e == 0xFFFFFFFF, (e + spec.bitmap_sectors(bs) + spb) * 512 <= fsize))
+                if not fault:
+                    E.assume(e != 0)
+                    E.assume(core.sym_or(e == 0xFFFFFFFF, (e + spec.bitmap_sectors(bs) + spb) * 512 <= fsize))
             vars_.update(table_offset=table_offset, max_entries=max_entries)
         j = E.var("j", 0, 1 << 50)
         vars_.update(offset=offset, length=length, j=j)
@@ -98,6 +104,8 @@ def read_task(prop, cfg, tier, seed):
         ctx.scenario.wide = [offset >= 1 << 40] + ([vars_["table_offset"] >= 1 << 40] if kind == "dynamic" else [])
         obj = m.VHD(fh)
         res = obj._read(offset, length)
+        if fault:
+            return fault_finish(ctx, E, res, length, bs)
         sv = spec.guest_byte(offset + j, fsize, bs, mem, kind == "dynamic")
         bad = byte_obligation(res, j, explen, sv, extra=[obj.size != cur], maxlen=length if cfg.get("tail") else None)
         if cfg.get("io"):
